@@ -24,6 +24,19 @@ PRIMARY_OVERRIDE = {'C01-store-check-outside-transport-lock': ['C06'], 'C04-loca
 NO_TESTS = set()
 
 
+def merge_meta(d, seed, res):
+    """meta.json: the sub-agent's description (property, what it needs to manifest) + what was run here and what came out."""
+    mp = os.path.join(d, 'meta.json')
+    try:
+        meta = json.load(open(mp))
+    except Exception:  # pylint: disable=broad-except
+        meta = {}
+    meta.setdefault('property', seed.split('-')[0])
+    meta['verified'] = {'command': res.get('ran'), 'pinned_suite_with_change': res.get('pinned_suite'), 'demo_exit_without_change': res.get('demo_without_patch'),
+                        'demo_exit_with_change': res.get('demo_with_patch'), 'checks': {c: x['verdict'] for c, x in res['checks'].items()}}
+    json.dump(meta, open(mp, 'w'), indent=1)
+
+
 def run(seed, force):
     d = os.path.join(VERIF, 'seeded', seed)
     out = os.path.join(d, 'verify.json')
@@ -32,6 +45,7 @@ def run(seed, force):
     if os.path.exists(out) and not force:
         old = json.load(open(out))
         if sorted(old.get('checks', {})) == sorted(checks):
+            merge_meta(d, seed, old)
             return seed, old
     cmd = [os.path.join(VERIF, 'tools', 'mutant.py'), os.path.join(d, 'patch.diff'), '--tests']
     if os.path.exists(os.path.join(d, 'demo.py')):
@@ -54,6 +68,7 @@ def run(seed, force):
         m = re.search(r'^%s (DETECTED|MISSED|HARNESS-ERROR)(.*)$' % c, text, re.M)
         res['checks'][c] = {'verdict': m.group(1) if m else 'NOT-RUN', 'first_violation': m.group(2).strip()[:300] if m else text[-300:]}
     json.dump(res, open(out, 'w'), indent=1)
+    merge_meta(d, seed, res)
     return seed, res
 
 
